@@ -36,13 +36,30 @@ package fscache
 //@   ensures result1 == nil && c.enc == nil ==> bytesOf(result0) == fsData[fileNameFor(key)]                   # name: returns-the-file-bytes
 //@   ensures result1 == nil && c.enc != nil ==> authentic(fsData[fileNameFor(key)]) && bytesOf(result0) == plainOf(fsData[fileNameFor(key)])   # name: decrypts-and-authenticates   props: C14 C17
 
+// isTempName(x): the base name of x starts with '.', which no key's file name does
+// (key-names-are-not-temporary, proved of fragmentFileName below and assumed of c.fn).
+// complete(c, entry, data): data is what a finished Set of entry leaves in the file.
+//@ spec func isTempName(x string) bool = len(pathBase(x)) > 0 && pathBase(x)[0] == 46
+//@ axiom key-names-are-not-temporary: forall k string :: !isTempName(fileNameFor(k))
+
 //@ func (*fsCache).set
-//@   property C14 C17
+//@   property C14 C15 C17
 //@   requires c != nil && c.root != nil && c.fn != nil
-//@   assigns fsHas[fileNameFor(key)], fsData[fileNameFor(key)]
-//@   ensures result == nil ==> fsHas[fileNameFor(key)]                                                         # name: file-exists-after-set
-//@   ensures result == nil && c.enc == nil ==> fsData[fileNameFor(key)] == bytesOf(entry)                      # name: writes-exactly-the-bytes
+//@   assigns fsHas, fsData
+//@   ensures forall x string :: x != fileNameFor(key) && !isTempName(x) ==> fsHas[x] == old(fsHas[x]) && fsData[x] == old(fsData[x])     # name: other-keys-untouched   props: C14
+//@   ensures result == nil ==> fsHas[fileNameFor(key)]                                                         # name: file-exists-after-set   props: C14
+//@   ensures result == nil && c.enc == nil ==> fsData[fileNameFor(key)] == bytesOf(entry)                      # name: writes-exactly-the-bytes   props: C14
 //@   ensures result == nil && c.enc != nil ==> authentic(fsData[fileNameFor(key)]) && plainOf(fsData[fileNameFor(key)]) == bytesOf(entry)   # name: writes-only-ciphertext   props: C14 C17
+//@   ensures result != nil ==> fsHas[fileNameFor(key)] == old(fsHas[fileNameFor(key)]) && fsData[fileNameFor(key)] == old(fsData[fileNameFor(key)])   # name: failed-set-keeps-the-previous-value   props: C15
+//@   always (fsHas[fileNameFor(key)] == old(fsHas[fileNameFor(key)]) && fsData[fileNameFor(key)] == old(fsData[fileNameFor(key)])) || (fsHas[fileNameFor(key)] && (c.enc == nil ==> fsData[fileNameFor(key)] == bytesOf(old(entry))) && (c.enc != nil ==> authentic(fsData[fileNameFor(key)]) && plainOf(fsData[fileNameFor(key)]) == bytesOf(old(entry))))   # name: never-a-partial-value   props: C15
+//@   step (fsHas[fileNameFor(key)] == old(fsHas[fileNameFor(key)]) && fsData[fileNameFor(key)] == old(fsData[fileNameFor(key)])) || (fsHas[fileNameFor(key)] && (c.enc == nil ==> fsData[fileNameFor(key)] == bytesOf(entry)) && (c.enc != nil ==> authentic(fsData[fileNameFor(key)]) && plainOf(fsData[fileNameFor(key)]) == bytesOf(entry)))   # name: each-step-keeps-or-installs-a-complete-value   props: C15
+//@   always forall x string :: x != fileNameFor(key) && !isTempName(x) ==> fsHas[x] == old(fsHas[x]) && fsData[x] == old(fsData[x])       # name: other-keys-never-touched   props: C14 C15
+
+//@ func writeSyncClose
+//@   property C15
+//@   requires f != nil
+//@   assigns fsData[fileNameOf(f)]
+//@   ensures result == nil ==> fsData[fileNameOf(f)] == old(fsData[fileNameOf(f)]) + bytesOf(data)             # name: appends-all-bytes-or-fails
 
 //@ func (*fsCache).delete
 //@   property C14
@@ -64,7 +81,8 @@ package fscache
 //@   property C14
 
 //@ func fragmentFileName
-//@   property C14
-//@   ensures wfName(result)                                                                # name: directories-marked-file-unmarked
+//@   property C14 C15
+//@   ensures wfName(result)                                                                # name: directories-marked-file-unmarked   props: C14
+//@   ensures !isTempName(result)                                                           # name: never-a-temporary-name   props: C14 C15
 //@   loop 0 invariant 0 <= i && len(encoded) - i >= 1 && b64Text(encoded)
-//@   loop 0 invariant forall j int :: 0 <= j && j < len(parts) ==> isDirName(parts[j])
+//@   loop 0 invariant forall j int :: 0 <= j && j < len(parts) ==> isDirName(parts[j]) && sepFree(parts[j])
